@@ -170,6 +170,32 @@ where
             let panicked = catch_unwind(AssertUnwindSafe(|| sw::Affine::<P>::new(x, y))).is_err();
             loc.check_at("affine_new", panicked == !ins, || format!("{} Affine::new panicked={panicked} want {}", d(), !ins));
         }
+        // `Projective::new` documents (and asserts) the same, for every scaling of the point
+        loc.class_if(!ins, "checked_constructor:out_of_subgroup");
+        for z in [1u64, 2, p - 1] {
+            let q = t.proj(i, z);
+            let (x, y, zz) = (q.x, q.y, q.z);
+            let r = catch_unwind(AssertUnwindSafe(|| sw::Projective::<P>::new(x, y, zz)));
+            let ok = match &r {
+                Ok(v) => ins && t.idx_proj(v) == Some(i),
+                Err(_) => !ins,
+            };
+            loc.check_at("projective_new", ok, || format!("{} z={z} Projective::new {} want {}", d(), if r.is_ok() { "returned a point" } else { "panicked" }, if ins { "this point" } else { "a panic" }));
+        }
+        // `Valid::batch_check` (affine: trait default; projective: normalize_batch + affine): a batch of subgroup
+        // points with the current point at every position is Ok exactly when the current point is in the subgroup
+        loc.class_if(!ins, "batch_check:one_bad_member");
+        let good: Vec<usize> = (1..=3u64).map(|k| t.g.mul(k, t.gen).expect("sw oracle law is total")).collect();
+        for pos in 0..3 {
+            let mut idx = good.clone();
+            idx[pos] = i;
+            let ba: Vec<sw::Affine<P>> = idx.iter().map(|j| t.aff(*j)).collect();
+            let got = sw::Affine::<P>::batch_check(ba.iter()).is_ok();
+            loc.check_at("batch_check_affine", got == ins, || format!("{} at position {pos} of a batch of subgroup points: Affine::batch_check ok={got} want {ins}", d()));
+            let bp: Vec<sw::Projective<P>> = idx.iter().enumerate().map(|(k, j)| t.proj(*j, [1, 2, p - 1][k])).collect();
+            let got = sw::Projective::<P>::batch_check(bp.iter()).is_ok();
+            loc.check_at("batch_check_projective", got == ins, || format!("{} at position {pos} of a batch of subgroup points: Projective::batch_check ok={got} want {ins}", d()));
+        }
         // clearing = h * P, lands in the subgroup
         for (site, q) in [("clear_cofactor", pt.clear_cofactor()), ("clear_cofactor", P::clear_cofactor(&pt)), ("mul_by_cofactor", pt.mul_by_cofactor())] {
             let j = t.idx_aff(&q);
@@ -249,7 +275,7 @@ where
         });
     }
     // ---- from_random_bytes: a METRIC, not a subgroup claim (it is built on get_point_from_x_unchecked, documented as
-    // "not guaranteed to be in the prime order subgroup"; callers clear the cofactor).  Asserted: the result is a curve point.
+    // "not guaranteed to be in the prime order subgroup"; callers clear the cofactor).  Nothing is asserted under C12.
     let blen = sw::Affine::<P>::identity().compressed_size();
     if blen <= 2 {
         ctx.sweep(&format!("toy/{name}/from_random_bytes"), 1u64 << (8 * blen), |i, loc| {
@@ -257,11 +283,13 @@ where
             match sw::Affine::<P>::from_random_bytes(&bytes) {
                 None => loc.class("from_random_bytes:none"),
                 Some(q) => {
+                    // not a C12 claim (C12 speaks about membership tests, clearing and sampling): observations only
                     let j = t.idx_aff(&q);
-                    loc.check_at("from_random_bytes_on_curve", j.is_some(), || format!("{name}: from_random_bytes({bytes:02x?}) = {q:?} is not a curve point"));
+                    loc.op();
                     match j {
                         Some(j) if t.in_subgroup[j] => loc.class("from_random_bytes:in_subgroup"),
-                        _ => loc.class("from_random_bytes:outside_subgroup(documented: unchecked)"),
+                        Some(_) => loc.class("from_random_bytes:outside_subgroup(documented: unchecked)"),
+                        None => loc.class("from_random_bytes:off_curve(metric, not a C12 claim)"),
                     }
                 }
             }
@@ -328,6 +356,31 @@ where
             let (x, y) = (pt.x, pt.y);
             let panicked = catch_unwind(AssertUnwindSafe(|| te::Affine::<P>::new(x, y))).is_err();
             loc.check_at("affine_new", panicked == !ins, || format!("{} Affine::new panicked={panicked} want {}", d(), !ins));
+            loc.class_if(!ins, "checked_constructor:out_of_subgroup");
+            for z in [1u64, 2, p - 1] {
+                let q = t.proj(i, z);
+                let (x, y, tt, zz) = (q.x, q.y, q.t, q.z);
+                let r = catch_unwind(AssertUnwindSafe(|| te::Projective::<P>::new(x, y, tt, zz)));
+                let ok = match &r {
+                    Ok(v) => ins && t.idx_proj(v) == Some(i),
+                    Err(_) => !ins,
+                };
+                loc.check_at("projective_new", ok, || format!("{} z={z} Projective::new {} want {}", d(), if r.is_ok() { "returned a point" } else { "panicked" }, if ins { "this point" } else { "a panic" }));
+            }
+            let good: Vec<Option<usize>> = (1..=3u64).map(|k| t.g.mul(k, t.gen)).collect();
+            if good.iter().all(|g| g.is_some()) {
+                loc.class_if(!ins, "batch_check:one_bad_member");
+                for pos in 0..3 {
+                    let mut idx: Vec<usize> = good.iter().map(|g| g.unwrap()).collect();
+                    idx[pos] = i;
+                    let ba: Vec<te::Affine<P>> = idx.iter().map(|j| t.aff(*j)).collect();
+                    let got = te::Affine::<P>::batch_check(ba.iter()).is_ok();
+                    loc.check_at("batch_check_affine", got == ins, || format!("{} at position {pos} of a batch of subgroup points: Affine::batch_check ok={got} want {ins}", d()));
+                    let bp: Vec<te::Projective<P>> = idx.iter().enumerate().map(|(k, j)| t.proj(*j, [1, 2, p - 1][k])).collect();
+                    let got = te::Projective::<P>::batch_check(bp.iter()).is_ok();
+                    loc.check_at("batch_check_projective", got == ins, || format!("{} at position {pos} of a batch of subgroup points: Projective::batch_check ok={got} want {ins}", d()));
+                }
+            }
         } else {
             loc.class("te_incomplete_membership_undecidable");
         }
@@ -420,7 +473,7 @@ where
         });
     }
     // ---- from_random_bytes: a METRIC, not a subgroup claim (it is built on get_point_from_x_unchecked, documented as
-    // "not guaranteed to be in the prime order subgroup"; callers clear the cofactor).  Asserted: the result is a curve point.
+    // "not guaranteed to be in the prime order subgroup"; callers clear the cofactor).  Nothing is asserted under C12.
     let blen = te::Affine::<P>::zero().compressed_size();
     if blen <= 2 {
         ctx.sweep(&format!("toy/{name}/from_random_bytes"), 1u64 << (8 * blen), |i, loc| {
@@ -428,11 +481,13 @@ where
             match te::Affine::<P>::from_random_bytes(&bytes) {
                 None => loc.class("from_random_bytes:none"),
                 Some(q) => {
+                    // not a C12 claim (C12 speaks about membership tests, clearing and sampling): observations only
                     let j = t.idx_aff(&q);
-                    loc.check_at("from_random_bytes_on_curve", j.is_some(), || format!("{name}: from_random_bytes({bytes:02x?}) = {q:?} is not a curve point"));
+                    loc.op();
                     match j {
                         Some(j) if t.in_subgroup[j] => loc.class("from_random_bytes:in_subgroup"),
-                        _ => loc.class("from_random_bytes:outside_subgroup(documented: unchecked)"),
+                        Some(_) => loc.class("from_random_bytes:outside_subgroup(documented: unchecked)"),
+                        None => loc.class("from_random_bytes:off_curve(metric, not a C12 claim)"),
                     }
                 }
             }
@@ -498,6 +553,8 @@ enum Desc {
     RCoord(usize),
     /// point of exact order l^j in the l-Sylow subgroup (j = 0: the whole Sylow component of a coordinate point); l^e || h
     Small { l: u64, e: u32, j: u32, plus_g: bool },
+    /// `extra_pts[k]`
+    Extra(usize),
 }
 
 struct Spec<A: AffineRepr> {
@@ -513,6 +570,12 @@ struct Spec<A: AffineRepr> {
     defined: fn(&A::Group) -> bool,
     /// documented clearing scalar when the config overrides clear_cofactor
     fast_c: Option<BigUint>,
+    /// the scalar is STANDARDISED (RFC 9380 h_eff): clearing must be exactly [fast_c]P.  false (BLS12-377: no
+    /// standard exists): [fast_c]P for the value pinned here OR [h]P for the curve cofactor are both accepted
+    fast_c_standard: bool,
+    /// explicitly constructed extra points (label, point, is a small-order point): torsion points of incomplete
+    /// twisted-Edwards curves and their sums with multiples of G, built with the affine law in the harness
+    extra_pts: Vec<(String, A, bool)>,
     /// the law used by the oracle is complete on E(F_q)
     complete: bool,
     r: BigUint,
@@ -531,6 +594,8 @@ trait CurveCases: Sync {
     fn run(&self, i: usize, loc: &mut Loc);
     fn constants(&self, loc: &mut Loc);
     fn stats(&self) -> serde_json::Value;
+    /// per-curve floor: a curve with cofactor > 1 must have contributed an out-of-subgroup case
+    fn floor_missing(&self) -> Option<String>;
 }
 
 fn small_primes() -> &'static Vec<u32> {
@@ -589,6 +654,9 @@ impl<A: AffineRepr> Spec<A> {
             d.push(Desc::HCoord(k));
             d.push(Desc::RCoord(k));
         }
+        for k in 0..self.extra_pts.len() {
+            d.push(Desc::Extra(k));
+        }
         if self.complete {
             for &(l, e) in &self.small {
                 for j in 0..=e.min(if light { 1 } else { 4 }) {
@@ -617,6 +685,7 @@ impl<A: AffineRepr> Spec<A> {
             Desc::Coord(k) => self.coord_pts[*k].into_group(),
             Desc::HCoord(k) => self.mul(&self.coord_pts[*k].into_group(), &self.h)?,
             Desc::RCoord(k) => self.mul(&self.coord_pts[*k].into_group(), &self.r)?,
+            Desc::Extra(k) => self.extra_pts[*k].1.into_group(),
             Desc::Small { l, e, j, plus_g } => {
                 // project onto the l-Sylow subgroup, S = (n / l^e) * P, walk S, l*S, l^2*S, .. down to O to learn the
                 // exact order l^k of S, then take the multiple of exact order l^j (j = 0: S itself)
@@ -677,6 +746,19 @@ where
         let v: Vec<u64> = self.stats.iter().map(|a| a.load(Ordering::Relaxed)).collect();
         serde_json::json!({"cases": self.descs.len(), "identity": v[0], "subgroup_point": v[1], "on_curve_not_in_subgroup": v[2], "small_order_point": v[3],
             "skipped(absent/undefined)": v[4], "case_wall_ms_sum": v[5], "cofactor_small_prime_powers": format!("{:?}", self.small), "cofactor_bits": self.h.bits(), "fast_clearing": self.fast_c.is_some(), "complete_law": self.complete})
+    }
+    fn floor_missing(&self) -> Option<String> {
+        let outside = self.stats[2].load(Ordering::Relaxed);
+        let small = self.stats[3].load(Ordering::Relaxed);
+        if !self.h.is_one() && outside == 0 {
+            return Some(format!("{}: cofactor {} > 1 but no on_curve_not_in_subgroup case was run", self.name, self.h));
+        }
+        // every twisted-Edwards curve has the point (0,-1) of order 2; complete ones and SW curves with a cofactor
+        // that has a prime factor below 2^20 get their small-order points from the Sylow constructions
+        if (!self.extra_pts.is_empty() || !self.small.is_empty()) && small == 0 {
+            return Some(format!("{}: small-order points exist (cofactor factors {:?}, {} explicit) but no small_order_point case was run", self.name, self.small, self.extra_pts.len()));
+        }
+        None
     }
     fn weight(&self) -> u64 {
         let q = <A::BaseField as Field>::BasePrimeField::MODULUS_BIT_SIZE as u64 * A::BaseField::extension_degree();
@@ -748,6 +830,15 @@ where
             loc.class("small_order_point");
             self.stats[3].fetch_add(1, Ordering::Relaxed);
         }
+        if let Desc::Extra(k) = desc {
+            let (_, _, small) = &self.extra_pts[*k];
+            loc.class(if *small { "te_incomplete:torsion_point" } else { "te_incomplete:G_plus_torsion" });
+            if *small {
+                loc.class("small_order_point");
+                self.stats[3].fetch_add(1, Ordering::Relaxed);
+                loc.check_at(&format!("{name}/oracle_sanity"), !ins && !is_id, || format!("{} a point of even order cannot be in the odd-order subgroup", d()));
+            }
+        }
         loc.class_if(self.h.is_one(), "cofactor_is_one_shortcut");
         loc.class_if(self.fast_c.is_some(), "fast_clearing");
         if loc.sampling() {
@@ -784,7 +875,36 @@ where
             // (on an incomplete curve the law is total on the odd-order subgroup, so an undefined r*Q also means "outside")
             let rq = self.mul(&q.into_group(), &self.r);
             loc.check_at(&site, matches!(rq, Some(z) if z.is_zero()), || format!("{} {which} = {q:?} is not in the prime-order subgroup", d()));
-            loc.check_at(&site, q == want_c_aff, || format!("{} {which} = {q:?} but c*P = {want_c_aff:?} for the documented c = {c}", d()));
+            if self.fast_c.is_some() && !self.fast_c_standard {
+                // no standard fixes the effective cofactor of this curve: the value pinned here or the plain cofactor
+                let (eq_c, eq_h) = (q == want_c_aff, q == want_h_aff);
+                loc.class(if eq_c { "fast_clearing:unstandardised_curve_uses_pinned_effective_cofactor(metric)" } else { "fast_clearing:unstandardised_curve_uses_plain_cofactor(metric)" });
+                loc.check_at(&site, eq_c || eq_h, || format!("{} {which} = {q:?} is neither c*P = {want_c_aff:?} for the pinned effective cofactor c = {c} nor h*P = {want_h_aff:?} for the curve cofactor", d()));
+            } else {
+                loc.check_at(&site, q == want_c_aff, || format!("{} {which} = {q:?} but c*P = {want_c_aff:?} for the documented c = {c}", d()));
+            }
+        }
+        // overridden clearing maps: "multiplication by ONE fixed integer" implies additivity - checked on the pairs
+        // (P, G) and (P, first coordinate point), sums by the generic law
+        if self.fast_c.is_some() {
+            let mut partners: Vec<(&str, A)> = vec![("G", A::generator())];
+            if let Some(c0) = self.coord_pts.first() {
+                partners.push(("the first coordinate point", *c0));
+            }
+            for (rn, rpt) in partners {
+                let mut s = gp;
+                s += &rpt.into_group();
+                if !(self.defined)(&s) {
+                    continue;
+                }
+                let sa: A = s.into_affine();
+                let lhs = (self.clear_cfg)(&sa);
+                let mut rhs = (self.clear_cfg)(&p).into_group();
+                rhs += &(self.clear_cfg)(&rpt).into_group();
+                let rhs: A = rhs.into_affine();
+                loc.class("clearing_homomorphism_pair");
+                loc.check_at(&format!("{name}/clear_cofactor_additive"), lhs == rhs, || format!("{} clear_cofactor(P + R) = {lhs:?} but clear_cofactor(P) + clear_cofactor(R) = {rhs:?} for R = {rn}", d()));
+            }
         }
         let q = p.mul_by_cofactor();
         loc.check_at(&format!("{name}/mul_by_cofactor"), q == want_h_aff, || format!("{} mul_by_cofactor = {q:?} want h*P = {want_h_aff:?}", d()));
@@ -836,7 +956,7 @@ fn npts_for(ctx: &Ctx, total_bits: u64) -> (usize, usize) {
     }
 }
 
-fn sw_spec<P: SWCurveConfig>(ctx: &Ctx, name: &str, fast_c: Option<BigUint>) -> Box<dyn CurveCases> {
+fn sw_spec<P: SWCurveConfig>(ctx: &Ctx, name: &str, fast_c: Option<BigUint>, fast_c_standard: bool) -> Box<dyn CurveCases> {
     let r = from_limbs(P::ScalarField::MODULUS.as_ref());
     let h = from_limbs(P::COFACTOR);
     let hinv = from_limbs(P::COFACTOR_INV.into_bigint().as_ref());
@@ -867,6 +987,8 @@ fn sw_spec<P: SWCurveConfig>(ctx: &Ctx, name: &str, fast_c: Option<BigUint>) -> 
             on_curve: sw_on_curve::<P>,
             defined: |_| true,
             fast_c,
+            fast_c_standard,
+            extra_pts: Vec::new(),
             complete: true,
             r,
             h,
@@ -894,7 +1016,7 @@ where
     let is_sq = |x: P::BaseField| x.is_zero() || x.pow(e) == P::BaseField::one();
     let complete = is_sq(P::COEFF_A) && !is_sq(P::COEFF_D);
     if !complete {
-        ctx.assume(&format!("{name}: twisted-Edwards parameters are not complete (a non-square or d square): the oracle's generic law is only trusted on well-formed results (Z != 0); small-order constructions are skipped for this curve"));
+        ctx.assume(&format!("{name}: twisted-Edwards parameters are not complete (a non-square or d square): the oracle's generic law is only trusted on well-formed results (Z != 0); the Sylow constructions are skipped for this curve, the torsion points (0,-1) [and (+-1/sqrt(a),0) when a is a square] and G + T, 2G + T are built explicitly with the affine law"));
     }
     let mut pts = Vec::new();
     let mut k = 0u64;
@@ -910,6 +1032,49 @@ where
         }
         k += 1;
     }
+    // incomplete parameters: the Sylow constructions are skipped, so the small-order points that exist on EVERY
+    // twisted-Edwards curve are built explicitly: T2 = (0, -1) of order 2 and, when a is a square, T4 = (+-1/sqrt(a), 0)
+    // of order 4; and G + T, 2G + T with the affine law evaluated here (a pair with a zero denominator is skipped)
+    let mut extra_pts: Vec<(String, te::Affine<P>, bool)> = Vec::new();
+    if !complete {
+        let one = P::BaseField::one();
+        let zero = P::BaseField::zero();
+        let on = |x: P::BaseField, y: P::BaseField| P::COEFF_A * x * x + y * y == one + P::COEFF_D * x * x * y * y;
+        let add = |p: (P::BaseField, P::BaseField), q: (P::BaseField, P::BaseField)| -> Option<(P::BaseField, P::BaseField)> {
+            let t = P::COEFF_D * p.0 * q.0 * p.1 * q.1;
+            let (d1, d2) = (one + t, one - t);
+            if d1.is_zero() || d2.is_zero() {
+                return None;
+            }
+            Some(((p.0 * q.1 + p.1 * q.0) / d1, (p.1 * q.1 - P::COEFF_A * p.0 * q.0) / d2))
+        };
+        let mut torsion: Vec<(String, (P::BaseField, P::BaseField))> = vec![("T2=(0,-1)".to_string(), (zero, -one))];
+        if is_sq(P::COEFF_A) {
+            if let Some(s) = P::COEFF_A.sqrt() {
+                if let Some(x4) = s.inverse() {
+                    torsion.push(("T4=(1/sqrt(a),0)".to_string(), (x4, zero)));
+                    torsion.push(("-T4=(-1/sqrt(a),0)".to_string(), (-x4, zero)));
+                }
+            }
+        }
+        let g = (P::GENERATOR.x, P::GENERATOR.y);
+        let g2 = add(g, g);
+        let mut ok = on(g.0, g.1);
+        for (tn, t) in &torsion {
+            ok &= on(t.0, t.1);
+            // orders by the affine law: 2*T2 = O, 2*T4 = T2
+            let dbl = add(*t, *t);
+            ok &= if tn.starts_with("T2") { dbl == Some((zero, one)) } else { dbl == Some((zero, -one)) };
+            extra_pts.push((tn.clone(), te::Affine::<P>::new_unchecked(t.0, t.1), true));
+            for (gn, gm) in [("G", Some(g)), ("2G", g2)] {
+                if let Some(s) = gm.and_then(|gm| add(gm, *t)) {
+                    ok &= on(s.0, s.1);
+                    extra_pts.push((format!("{gn}+{tn}"), te::Affine::<P>::new_unchecked(s.0, s.1), false));
+                }
+            }
+        }
+        ctx.validate(ok, &format!("{name}: explicitly built torsion points T2 / T4 and G + T are on the curve and have the stated orders (affine law in the harness)"));
+    }
     Box::new(
         Spec::<te::Affine<P>> {
             name: name.to_string(),
@@ -920,6 +1085,8 @@ where
             on_curve: te_on_curve::<P>,
             defined: |g| !g.z.is_zero(),
             fast_c: None,
+            fast_c_standard: true,
+            extra_pts,
             complete,
             r,
             h,
@@ -985,10 +1152,13 @@ fn shipped(ctx: &mut Ctx) {
     let mut curves: Vec<Box<dyn CurveCases>> = Vec::new();
     macro_rules! sw {
         ($P:ty, $name:expr) => {
-            curves.push(sw_spec::<$P>(ctx, $name, None));
+            curves.push(sw_spec::<$P>(ctx, $name, None, true));
         };
         ($P:ty, $name:expr, $c:expr) => {
-            curves.push(sw_spec::<$P>(ctx, $name, Some($c.clone())));
+            curves.push(sw_spec::<$P>(ctx, $name, Some($c.clone()), true));
+        };
+        ($P:ty, $name:expr, $c:expr, unstandardised) => {
+            curves.push(sw_spec::<$P>(ctx, $name, Some($c.clone()), false));
         };
     }
     macro_rules! te {
@@ -1001,8 +1171,8 @@ fn shipped(ctx: &mut Ctx) {
     sw!(ark_bls12_381::g2::Config, "bls12_381/g2", c381_g2);
     sw!(ark_test_curves::bls12_381::g1::Config, "test/bls12_381/g1", c381_g1);
     sw!(ark_test_curves::bls12_381::g2::Config, "test/bls12_381/g2", c381_g2);
-    sw!(ark_bls12_377::g1::Config, "bls12_377/g1", c377_g1);
-    sw!(ark_bls12_377::g2::Config, "bls12_377/g2", c377_g2);
+    sw!(ark_bls12_377::g1::Config, "bls12_377/g1", c377_g1, unstandardised);
+    sw!(ark_bls12_377::g2::Config, "bls12_377/g2", c377_g2, unstandardised);
     sw!(ark_bn254::g1::Config, "bn254/g1");
     sw!(ark_bn254::g2::Config, "bn254/g2");
     // ---- defaults, cofactor > 1
@@ -1068,11 +1238,19 @@ fn shipped(ctx: &mut Ctx) {
     for c in &curves {
         ctx.bound(&format!("shipped/{}", c.name()), c.stats());
     }
+    if ctx.only.is_none() && ctx.replay.is_none() {
+        for c in &curves {
+            if let Some(msg) = c.floor_missing() {
+                ctx.validate(false, &format!("per-curve floor: {msg}"));
+            }
+        }
+    }
 }
 
 fn main() {
     let mut ctx = Ctx::from_args("C12");
     ctx.require(&["on_curve_not_in_subgroup", "small_order_point", "identity", "subgroup_point", "cofactor_is_one_shortcut", "fast_clearing"]);
+    ctx.require(&["te_incomplete:torsion_point", "te_incomplete:G_plus_torsion", "clearing_homomorphism_pair", "checked_constructor:out_of_subgroup", "batch_check:one_bad_member"]);
     ctx.require(&["sample:first_draw_geq_modulus", "sample:first_x_not_on_curve", "sample:greatest", "off_curve_pair"]);
     ctx.assume("shipped curves: the membership oracle is r*P == O computed by the harness's own double-and-add over the generic projective `+=`/`double_in_place` (property C03), and point equality is decided on `into_affine()` coordinates");
     ctx.assume("scripted RNG: the k-th RNG call consumes the k-th script byte (low byte of next_u64, top byte of next_u32; remaining bits all-0 or all-1), then an incrementing counter; all scripts of the stated lengths are enumerated, so every (candidate coordinate, sign) pair of the first rejection-loop iteration is reached");
